@@ -206,11 +206,101 @@ func hexOutcome(text []byte) string {
 	return cq.Ok(cq.Bytes(hb))
 }
 
+// lengths around powers of two for every variable-length field
+var ladder = []int{0, 1, 2, 15, 16, 17, 255, 256, 257, 258, 300, 511, 512, 1024, 4096}
+var ladderThorough = []int{31, 32, 33, 63, 64, 65, 127, 128, 129, 1023, 1025, 2047, 2048, 2049, 4095, 4097, 8192}
+
+// lowerHex is written here independently of encoding/hex: two lower-case digits per byte, all bytes.
+func lowerHex(b []byte) string {
+	const d = "0123456789abcdef"
+	out := make([]byte, 0, 2*len(b))
+	for _, x := range b {
+		out = append(out, d[x>>4], d[x&15])
+	}
+	return string(out)
+}
+
+// hexGoSide: text form, String, text with 0x, and JSON inside a struct, against lowerHex.
+func hexGoSide(s *cases.Set, bs []byte) (text []byte, ok bool) {
+	ok = true
+	name := fmt.Sprintf("len=%d:%x", len(bs), bs)
+	if len(bs) > 24 {
+		name = fmt.Sprintf("len=%d:%x..", len(bs), bs[:8])
+	}
+	fail := func(what string, extra map[string]interface{}) {
+		ok = false
+		rp := map[string]interface{}{"api": "backend.HEXBytes MarshalText/UnmarshalText/String/json", "length": len(bs), "value_prefix": fmt.Sprintf("%x", bs[:min(len(bs), 32)])}
+		for k, v := range extra {
+			rp[k] = v
+		}
+		s.Fail(cases.GoFail{Key: "hex:go:" + name, What: what, Replay: rp})
+	}
+	want := lowerHex(bs)
+	text, err := backend.HEXBytes(bs).MarshalText()
+	if err != nil || string(text) != want {
+		fail(fmt.Sprintf("HEXBytes.MarshalText of %d bytes is not the lower-case hex of all bytes (got %d characters, want %d)", len(bs), len(text), len(want)), map[string]interface{}{"text_tail": string(text[max(0, len(text)-40):])})
+	}
+	if got := backend.HEXBytes(bs).String(); got != want {
+		fail(fmt.Sprintf("HEXBytes.String of %d bytes is not the hex of all bytes", len(bs)), map[string]interface{}{"string_tail": got[max(0, len(got)-40):]})
+	}
+	for _, pre := range []string{"", "0x"} {
+		var back backend.HEXBytes
+		if err := back.UnmarshalText(append([]byte(pre), text...)); err != nil || !bytes.Equal(back, bs) {
+			fail(fmt.Sprintf("HEXBytes of %d bytes does not survive MarshalText -> UnmarshalText (prefix %q): %v", len(bs), pre, err), nil)
+		}
+	}
+	type w struct{ V backend.HEXBytes }
+	b, err := json.Marshal(w{V: bs})
+	var back w
+	if err == nil {
+		err = json.Unmarshal(b, &back)
+	}
+	if err != nil || !bytes.Equal(back.V, bs) {
+		fail(fmt.Sprintf("HEXBytes of %d bytes does not survive json.Marshal/Unmarshal: %v", len(bs), err), nil)
+	}
+	return text, ok
+}
+
+func min(a, b int) int {
+	if a < b {
+		return a
+	}
+	return b
+}
+
+func max(a, b int) int {
+	if a > b {
+		return a
+	}
+	return b
+}
+
 func hexCases(s *cases.Set, r *cq.RNG, thorough bool) {
 	n := 60
 	if thorough {
 		n = 2000
 	}
+	// length ladder, stand-alone: evaluated in Coq up to 4096 (8192 thorough), on the Go side up to 64 KiB
+	ls := append([]int{}, ladder...)
+	if thorough {
+		ls = append(ls, ladderThorough...)
+	}
+	for _, l := range ls {
+		bs := r.Bytes(l)
+		text, _ := hexGoSide(s, bs)
+		b1, b2 := hexOutcome(text), hexOutcome(append([]byte("0x"), text...))
+		okb := cq.Ok(cq.Bytes(bs))
+		term := fmt.Sprintf("CHexRTSame %s %s", cq.Bytes(bs), cq.Bytes(text))
+		if b1 != okb || b2 != okb {
+			term = fmt.Sprintf("CHexRT %s %s %s %s", cq.Bytes(bs), cq.Bytes(text), b1, b2)
+		}
+		s.Add(cases.Case{Term: term, Key: fmt.Sprintf("hex:rt:len=%d", l), Kind: "hexbytes-roundtrip-length-ladder", Nontrivial: true,
+			Replay: map[string]interface{}{"api": "backend.HEXBytes.MarshalText/UnmarshalText", "length": l, "value_prefix": fmt.Sprintf("%x", bs[:min(l, 32)]), "text_length": len(text), "text_tail": string(text[max(0, len(text)-40):])}})
+	}
+	for _, l := range []int{16383, 16384, 16385, 65535, 65536, 65537} {
+		hexGoSide(s, r.Bytes(l))
+	}
+	s.Exhaustive("hexbytes: length ladder 0,1,2,15,16,17,255,256,257,258,300,511,512,1024,4096 evaluated in Coq; additionally 16383..16385 and 65535..65537 bytes on the Go side against an independent lower-case hex printer")
 	for i := 0; i < n; i++ {
 		l := r.Intn(40)
 		if i < 3 {
@@ -220,20 +310,10 @@ func hexCases(s *cases.Set, r *cq.RNG, thorough bool) {
 		if i%7 == 0 && l > 0 {
 			bs[0] = 0
 		}
-		text, _ := backend.HEXBytes(bs).MarshalText()
+		text, _ := hexGoSide(s, bs)
 		s.Add(cases.Case{Term: fmt.Sprintf("CHexRT %s %s %s %s", cq.Bytes(bs), cq.Bytes(text), hexOutcome(text), hexOutcome(append([]byte("0x"), text...))),
 			Key: fmt.Sprintf("hex:rt:%x", bs), Kind: "hexbytes-roundtrip", Nontrivial: true,
 			Replay: map[string]interface{}{"api": "backend.HEXBytes.MarshalText/UnmarshalText", "value": fmt.Sprintf("%x", bs)}})
-		// through encoding/json as a struct field, Go side
-		type w struct{ V backend.HEXBytes }
-		b, err := json.Marshal(w{V: bs})
-		var back w
-		if err == nil {
-			err = json.Unmarshal(b, &back)
-		}
-		if err != nil || !bytes.Equal(back.V, bs) {
-			s.Fail(cases.GoFail{Key: fmt.Sprintf("hex:json:%x", bs), What: "HEXBytes does not survive json.Marshal/Unmarshal", Replay: map[string]interface{}{"value": fmt.Sprintf("%x", bs), "json": string(b)}})
-		}
 	}
 	hexd := []byte("0123456789abcdefABCDEF")
 	for i := 0; i < n; i++ {
@@ -452,7 +532,11 @@ func isoCases(s *cases.Set, r *cq.RNG, thorough bool) {
 	}
 }
 
-type filler struct{ r *cq.RNG }
+// filler sets random values; full = every pointer set and every slice non-empty (so that every field is reachable).
+type filler struct {
+	r    *cq.RNG
+	full bool
+}
 
 var (
 	tHex  = reflect.TypeOf(backend.HEXBytes{})
@@ -477,7 +561,10 @@ func (f filler) fill(v reflect.Value) {
 	t := v.Type()
 	switch {
 	case t == tHex:
-		if f.r.Intn(3) != 0 {
+		switch {
+		case f.r.Intn(8) == 0:
+			v.SetBytes(f.r.Bytes(ladder[f.r.Intn(len(ladder)-1)])) // up to 1024 bytes
+		case f.full || f.r.Intn(3) != 0:
 			v.SetBytes(f.r.Bytes(1 + f.r.Intn(12)))
 		}
 		return
@@ -491,7 +578,7 @@ func (f filler) fill(v reflect.Value) {
 		v.SetInt(int64(f.r.Intn(101)))
 		return
 	case t == tRaw:
-		if f.r.Intn(2) == 0 {
+		if f.full || f.r.Intn(2) == 0 {
 			v.SetBytes([]byte([]string{`{"a":1}`, `[1,2,{"b":null}]`, `"x"`, `12.5`, `true`}[f.r.Intn(5)]))
 		}
 		return
@@ -520,13 +607,13 @@ func (f filler) fill(v reflect.Value) {
 		}
 		v.SetFloat(x)
 	case reflect.Ptr:
-		if f.r.Intn(5) < 3 {
+		if f.full || f.r.Intn(5) < 3 {
 			p := reflect.New(t.Elem())
 			f.fill(p.Elem())
 			v.Set(p)
 		}
 	case reflect.Slice:
-		if f.r.Intn(3) != 0 {
+		if f.full || f.r.Intn(3) != 0 {
 			n := 1 + f.r.Intn(3)
 			sl := reflect.MakeSlice(t, n, n)
 			for i := 0; i < n; i++ {
@@ -589,6 +676,118 @@ func same(a, b reflect.Value) bool {
 	return reflect.DeepEqual(a.Interface(), b.Interface())
 }
 
+// jsonRT: Marshal -> Unmarshal -> Marshal; "" when the value survives.
+func jsonRT(v reflect.Value) (msg string, js, js2 []byte) {
+	b, err := json.Marshal(v.Interface())
+	back := reflect.New(v.Type().Elem())
+	if err == nil {
+		err = json.Unmarshal(b, back.Interface())
+	}
+	var b2 []byte
+	if err == nil {
+		b2, err = json.Marshal(back.Interface())
+	}
+	switch {
+	case err != nil:
+		return "error: " + err.Error(), b, b2
+	case !same(v.Elem(), back.Elem()):
+		return "value differs after json.Marshal/Unmarshal", b, b2
+	case !bytes.Equal(b, b2):
+		return "JSON differs when marshalled again", b, b2
+	}
+	return "", b, b2
+}
+
+type varField struct {
+	path string
+	v    reflect.Value
+}
+
+// varFields collects every settable variable-length field (HEXBytes, strings, slices) below v.
+func varFields(v reflect.Value, path string, out *[]varField) {
+	t := v.Type()
+	if t == tISO || t == tRaw || t == tDLS {
+		return
+	}
+	if t == tHex || t.Kind() == reflect.String {
+		if v.CanSet() {
+			*out = append(*out, varField{path, v})
+		}
+		return
+	}
+	switch t.Kind() {
+	case reflect.Ptr:
+		if !v.IsNil() {
+			varFields(v.Elem(), path, out)
+		}
+	case reflect.Struct:
+		for i := 0; i < v.NumField(); i++ {
+			varFields(v.Field(i), path+"."+t.Field(i).Name, out)
+		}
+	case reflect.Slice: // []GWInfoElement, []Frequency, ...
+		if v.CanSet() {
+			*out = append(*out, varField{path + "[]", v})
+		}
+		if v.Len() > 0 && t.Elem().Kind() == reflect.Struct {
+			varFields(v.Index(0), path+"[0]", out)
+		}
+	}
+}
+
+// fieldLadder: every variable-length field of every payload type at lengths around powers of two.
+func fieldLadder(s *cases.Set, r *cq.RNG, protos []interface{}, thorough bool) int {
+	lens := []int{17, 256, 257, 4096}
+	if thorough {
+		lens = append(append([]int{}, ladder...), 2047, 2048, 2049, 4097, 65537)
+	}
+	total := 0
+	f := filler{r: r, full: true}
+	for _, p := range protos {
+		t := reflect.TypeOf(p)
+		v := reflect.New(t)
+		f.fill(v.Elem())
+		var fields []varField
+		varFields(v.Elem(), t.Name(), &fields)
+		for _, fl := range fields {
+			saved := reflect.New(fl.v.Type()).Elem()
+			saved.Set(fl.v)
+			for _, l := range lens {
+				switch {
+				case fl.v.Type() == tHex:
+					fl.v.SetBytes(r.Bytes(l))
+				case fl.v.Kind() == reflect.String:
+					b := make([]byte, l)
+					for i := range b {
+						b[i] = "abcXYZ019 -_/\"<"[r.Intn(15)]
+					}
+					fl.v.SetString(string(b))
+				default: // slice
+					if l > 300 {
+						continue
+					}
+					sl := reflect.MakeSlice(fl.v.Type(), l, l)
+					for i := 0; i < l; i++ {
+						filler{r: r}.fill(sl.Index(i))
+					}
+					fl.v.Set(sl)
+				}
+				total++
+				if msg, js, _ := jsonRT(v); msg != "" {
+					tail := string(js)
+					if len(tail) > 300 {
+						tail = tail[:150] + " ... " + tail[len(tail)-150:]
+					}
+					s.Fail(cases.GoFail{Key: fmt.Sprintf("struct:%s:len=%d", fl.path, l), What: fmt.Sprintf("%s with %s of length %d does not survive encoding/json: %s", t.Name(), fl.path, l, msg),
+						Replay: map[string]interface{}{"api": "json.Marshal/json.Unmarshal of backend." + t.Name(), "field": fl.path, "length": l, "json_excerpt": tail}})
+					break
+				}
+			}
+			fl.v.Set(saved)
+		}
+	}
+	return total
+}
+
 func structCases(s *cases.Set, r *cq.RNG, thorough bool) {
 	protos := []interface{}{
 		backend.JoinReqPayload{}, backend.JoinAnsPayload{}, backend.RejoinReqPayload{}, backend.RejoinAnsPayload{},
@@ -601,7 +800,7 @@ func structCases(s *cases.Set, r *cq.RNG, thorough bool) {
 	if thorough {
 		n = 1500
 	}
-	f := filler{r}
+	f := filler{r: r}
 	total := 0
 	for _, p := range protos {
 		t := reflect.TypeOf(p)
@@ -636,6 +835,8 @@ func structCases(s *cases.Set, r *cq.RNG, thorough bool) {
 			}
 		}
 	}
+	s.Extra["struct_field_length_ladder_round_trips"] = fieldLadder(s, r, protos, thorough)
+	s.Exhaustive("payload structs: every HEXBytes / string / struct-slice field of the 20 payload types (all pointers set) at lengths 17, 256, 257, 4096 (thorough: the whole ladder and 65537) through encoding/json, Go side")
 	s.Extra["struct_go_side_round_trips"] = total
 	s.Extra["struct_types"] = len(protos)
 }
